@@ -596,7 +596,7 @@ impl DrawState {
             if idx + 1 == self.lines.len() && !ends_with_text {
                 // For the last line of the output, keep the cursor on the right terminal
                 // side so that next user writes/prints will happen on the next line
-                let last_line_filler = line_height.as_usize() * term_width - line.console_width();
+                let last_line_filler = term_width - line.layout(term_width).1;
                 term.write_str(&" ".repeat(last_line_filler))?;
             }
         }
@@ -700,15 +700,46 @@ pub(crate) enum LineType {
 
 impl LineType {
     fn wrapped_height(&self, width: usize) -> VisualLines {
-        // Calculate real length based on terminal width
-        // This take in account linewrap from terminal
-        let terminal_len = (self.console_width() as f64 / width as f64).ceil() as usize;
+        self.layout(width).0
+    }
+
+    /// Lays the line out on a terminal that is `width` columns wide: returns the number of rows
+    /// it takes up and the number of columns used in its last row.
+    fn layout(&self, width: usize) -> (VisualLines, usize) {
+        let cols = self.console_width();
 
         // If the line is effectively empty (for example when it consists
         // solely of ANSI color code sequences, count it the same as a
         // new line. If the line is measured to be len = 0, we will
         // subtract with overflow later.
-        usize::max(terminal_len, 1).into()
+        if cols <= width {
+            return (1usize.into(), cols);
+        }
+
+        if width == 0 {
+            return (usize::MAX.into(), 0);
+        }
+
+        // The terminal wraps character by character: a double-width character that does not
+        // fit into the last column of a row moves to the next row and leaves that column blank,
+        // so the number of rows is not simply `cols / width` rounded up.
+        let text = console::strip_ansi_codes(self.as_ref());
+        let (mut rows, mut col) = (1usize, 0usize);
+        for c in text.chars() {
+            let char_cols = console::measure_text_width(c.encode_utf8(&mut [0; 4]));
+            if char_cols == 0 {
+                continue;
+            }
+
+            if col + char_cols > width && col > 0 {
+                rows += 1;
+                col = 0;
+            }
+
+            col += char_cols;
+        }
+
+        (rows.into(), Ord::min(col, width))
     }
 
     fn console_width(&self) -> usize {
